@@ -9,4 +9,24 @@
 #endif
 #define B64_LEN(n) (4 * (((n) + 2) / 3))
 #define B64_ALPHA(c) (((c) >= 'A' && (c) <= 'Z') || ((c) >= 'a' && (c) <= 'z') || ((c) >= '0' && (c) <= '9') || (c) == '+' || (c) == '/')
+
+/* ---- entry snapshots of nni_base64_encode / nni_base64_decode for the native replay
+ * driver (modules/wscodec/replay.c): the lengths and the first 12 input bytes as plain
+ * locals woven at function entry, read by vp/replay.py from counterexample traces.
+ * CBMC's per-dereference checks are switched off inside the snapshot so that it adds no
+ * proof obligations (every read is guarded by i < in_len). */
+#define VP_SNAP_BEGIN                                                              \
+	_Pragma("CPROVER check push") _Pragma("CPROVER check disable \"pointer\"")   \
+	_Pragma("CPROVER check disable \"bounds\"")                                  \
+	_Pragma("CPROVER check disable \"pointer-primitive\"")                       \
+	_Pragma("CPROVER check disable \"pointer-overflow\"")
+#define VP_SNAP_END _Pragma("CPROVER check pop")
+#define VP_SNAP_B64_B(t, i) uint8_t vp_in_##t##i = ((size_t) (i) < in_len) ? (uint8_t) in[i] : (uint8_t) 0
+#define VP_SNAP_B64(t)                                                             \
+	VP_SNAP_BEGIN                                                                  \
+	size_t vp_arg_##t##_in_len = in_len, vp_arg_##t##_out_len = out_len;           \
+	VP_SNAP_B64_B(t, 0); VP_SNAP_B64_B(t, 1); VP_SNAP_B64_B(t, 2); VP_SNAP_B64_B(t, 3); \
+	VP_SNAP_B64_B(t, 4); VP_SNAP_B64_B(t, 5); VP_SNAP_B64_B(t, 6); VP_SNAP_B64_B(t, 7); \
+	VP_SNAP_B64_B(t, 8); VP_SNAP_B64_B(t, 9); VP_SNAP_B64_B(t, 10); VP_SNAP_B64_B(t, 11); \
+	VP_SNAP_END
 #endif
